@@ -23,7 +23,7 @@ CLAIM = dict(
          'Three genuine defect classes are listed in '
          'known_findings.json and reported as KNOWN-FINDING (Laguerre cycling on (near-)symmetric root configurations, degree >= 4: accuracy clauses of the classes '
          'binomial/ring/sparse/coeffs; loss of a zero root when a cubic is polished: matching clause; unrefined Complex cubic with d1 on the imaginary axis: accuracy clauses); count, finiteness and rejection stay checked for them. "Well separated" is made precise as: all roots distinct and absolute root condition <= 1e3*scale (computed from the true roots at generation '
-         'time), or distinct Gaussian-integer roots for the TLC cases. The path taken inside the real code (which formula, how many Laguerre iterations) is not observed.',
+         'time), or distinct Gaussian-integer roots for the TLC cases. Random palindromic / anti-palindromic polynomials are strict at degree <= 6; degree 7-8 (anti-)palindromic polynomials are exercised only through the recorded D16 instances (five explicit degree-8 polynomials (x^n +- 1)(x +- 1)^2(x -+ 1), keyed by their coefficient list `pid8`, unrefined backward-error clause only; their refined runs and every other polynomial stay strict). The path taken inside the real code (which formula, how many Laguerre iterations) is not observed.',
     design='4 (C10)')
 
 
